@@ -26,6 +26,8 @@ type File struct {
 type Namespace struct {
 	Scope string `json:"scope"`
 	Value string `json:"value"`
+	// Vendor: the namespace advertises where the generated code is vendored: (vendor="<path>")
+	Vendor string `json:"vendor,omitempty"`
 }
 
 type Ann struct {
